@@ -21,6 +21,10 @@ const (
 )
 
 func CCompress(src []byte) (dst cmem.CArray, ok bool) {
+	if len(src) == 0 {
+		// nothing to compress, and &src[0] below would panic
+		return
+	}
 	ok = dst.Alloc(len(src) + 400)
 	if !ok {
 		return
